@@ -42,7 +42,7 @@ ALL_GROUPS = ('repr', 'ring', 'mixed', 'div', 'gcd', 'inv', 'pow', 'plainpow', '
 
 
 def budget(tier):
-    return dict(shards=16, examples=1200 if tier == 'quick' else 20000)
+    return dict(shards=16, examples=700 if tier == 'quick' else 20000)
 
 
 # ------------------------------------------------------------------------------------------ plumbing
